@@ -512,11 +512,11 @@ Section Proofs.
     pull_upstream val pyop none_val st n r = (st1, ok) -> same_skel st st1.
   Proof.
     unfold pull_upstream. intros H.
-    destruct (wf_cache_hit val st _); [injection H as <- _; apply same_skel_refl|].
+    destruct (wf_cache_hit val st _); [injection H as <- _; repeat split|].
     destruct (fold_left _ _ _) as [st2 ok2] eqn:F.
     apply (fold_skel _ _ (ensure_skel _)) in F.
     injection H as <- _.
-    destruct (ok2 && s_parent val st); [|exact F].
+    destruct (s_parent val st); [|exact F].
     destruct F as (A & B & C). repeat split; simpl; assumption.
   Qed.
 
@@ -907,14 +907,13 @@ Lemma w_regressions :
      w_pull st2 1 = (st3, PVal "list:[2, 3, 4]")).
 Proof. split; do 2 eexists; try eexists; vm_compute; repeat split; reflexivity. Qed.
 
-(* model fact outside C18's clauses (composite cache, C05): after one successful pull in a Workflow, with no
-   child added since and the same value-holding children in the data tree, the next parent.run() is a cache
-   hit and runs nothing upstream; +(-z.p), written before z had run, cannot be pulled *)
+(* regression of the repaired composite-cache defect (C05): a pull leaves the parent's input cache empty, so a
+   second pull in the same Workflow re-executes upstream; +(-z.p), written before z had run, pulls to -3 *)
 Lemma w_pull_cache : exists st1 a o1 st2 b o2 st3 c o3 st4 v st5,
   w_inject w_st0 (@mkQ tval CNegative (CU 4 0) [] true) = (st1, a, o1) /\
   w_inject st1 (@mkQ tval CPositive (CN a) [] true) = (st2, b, o2) /\
   w_inject st2 (@mkQ tval CNegative (CU 4 1) [] true) = (st3, c, o3) /\
-  w_pull st3 c = (st4, PVal v) /\ w_pull st4 b = (st5, PUp).
+  w_pull st3 c = (st4, PVal v) /\ s_wfcache tval st4 = None /\ w_pull st4 b = (st5, PVal "int:-3").
 Proof. do 12 eexists. vm_compute. repeat split; reflexivity. Qed.
 
 (* non-vacuity: with repr = the (injective) tagged text itself, a history with a raw operand, a channel
